@@ -196,6 +196,9 @@ def work(shard, res, tier, seed):
             for side in rx.split(">>"):
                 check_decompose(side, res, dec, "dot_ring_closure")
             res.count("dot_ring_closure_inputs")
+        for _, rx in G.dative(rng, 60):  # '>' inside a molecule (dative bond '->')
+            carbon_one(rx, res, CheckCarbonBalance, is_carbon_balanced)
+            res.count("dative_bond_inputs")
         for n in (999, 1000, 1001, 1300):  # very large molecules
             carbon_one("C" * n + "O>>" + "C" * n + "OCO", res, CheckCarbonBalance, is_carbon_balanced)
             carbon_one("C" * n + "O.C=O>>" + "C" * n + "OCO", res, CheckCarbonBalance, is_carbon_balanced)
@@ -283,6 +286,22 @@ def chain_one(rx, res, dec, compare, diff):
         if d.get(k, 0) != x:
             res.viol("chain_diff_formula_wrong", element=k, **w)
             break
+    # a client looks counts up before comparing: asking a composition for elements it does not contain (with a
+    # KeyError caught, as a plain dictionary demands) must not change the verdict
+    try:
+        da, db = dec(a), dec(b)
+        for comp_ in (da, db):
+            for k in ("N", "Q", "Zz"):
+                try:
+                    comp_[k]
+                except KeyError:
+                    pass
+        v2 = compare(da, db)
+        res.count("chain_after_lookups_evaluated")
+        if v2 != v:
+            res.viol("chain_verdict_changes_after_reading_absent_counts", verdict_after=v2, **w)
+    except Exception as e:  # noqa
+        res.viol("decompose_compare_chain_raised", case={"reaction": rx}, error=repr(e)[:200])
     if not same:
         res.case(["chain", rx])
 
